@@ -128,7 +128,7 @@ func condsMentioning(fn *ssa.Function, re string, subject string) int {
 
 func rulesC14(c *Ctx) {
 	c.Explain = append(c.Explain,
-		"C14 (elections deterministic, only eligible nodes) — decided: (a) filter-before-collect: every node enters the candidate lists of the validator and committee elections only on paths where the eligibility tests on that same node held (not frozen, not expired, election-eligible when VRF filtering is on, required role, stake claims satisfied, runtime suitability incl. version/suspension/TEE verification, validator-set membership when constrained), and limits are enforced structurally (per-entity and total validator caps at the insertion, minimum/exact committee sizes before members are returned, no committee stored when empty); (b) EndBlock returns exactly diffValidators(current, pending) and replaces the tracked set with pending on success; diffValidators removes with power 0 what is not pending and upserts what is new or changed; (c) all randomness of the scheduler comes from initRNG(DRBG(entropy,…)) with the entropy read from the beacon state, map-derived address lists are sorted before they are shuffled, and the stake ordering comparator is descending; map-iteration order sensitivity of the scheduler is decided under C01 (MAPORDER).",
+		"C14 (elections deterministic, only eligible nodes) — decided: (a) filter-before-collect: every node enters the candidate lists of the validator and committee elections only on paths where the eligibility tests on that same node held (not frozen, not expired, election-eligible when VRF filtering is on, required role, stake claims satisfied, runtime suitability incl. version/suspension/TEE verification, validator-set membership when constrained), and limits are enforced structurally (per-entity and total validator caps at the insertion, minimum/exact committee sizes before members are returned, no committee stored when empty); (b) EndBlock returns exactly diffValidators(current, pending) and replaces the tracked set with pending on success; diffValidators removes with power 0 what is not pending and upserts what is new or changed; (c) all randomness of the scheduler comes from initRNG(DRBG(entropy,…)) with the entropy read from the beacon state, map-derived address lists are sorted before they are shuffled, and the stake ordering comparator is descending; map-iteration order sensitivity of the scheduler is decided under C01 (MAPORDER); (round 2) (d) VotingPowerFromStake tests for zero the very quantity it converts, after the last in-place operation on it (no elected validator gets power 0); (e) an entity is recorded as validator/rewardable entity only in an iteration that inserts one of its nodes; (f) an election pass cannot finish successfully without visiting the runtimes, and electCommittee stores or drops the committee on every success exit (fails on the current tree: known finding F26); (g) parameter changes are held to the same positive validator limits as the genesis (F25, found by a sub-agent and repaired).",
 		"NOT decided: that the ordering/tie-breaking yields the stated order for all stake distributions, voting-power monotonicity (VotingPowerFromStake arithmetic), stake-claim arithmetic at thresholds (StakeAccumulator), uniformity of shuffles.")
 	c.Assume = append(c.Assume, "scheduler Debug* consensus parameters (DebugBypassStake, DebugForceElect, DebugAllowWeakAlpha) are accepted as explicit alternatives of the corresponding guard: scheduler ConsensusParameters.SanityCheck rejects them unless the node runs with the unsafe debug flag")
 	ix := c.P.BuildIndex()
@@ -471,6 +471,7 @@ func rulesC14(c *Ctx) {
 		c.Check(vstr(a[0]) == "param:entropy", "C14.entropy", "initRNG<-"+fname(s.Fn)+":entropy", c.P.InstrPos(s.In), "seeded with the caller's entropy parameter", "initRNG is seeded with something other than the epoch entropy handed down from elect")
 	}
 	c.Floor("C14.entropy", nInit, 3, "initRNG call sites")
+	rulesC14Round2(c)
 	// no use of the global math/rand source in the scheduler application or scheduler/api
 	nGlob := 0
 	for callee, sites := range ix.Calls {
